@@ -2247,11 +2247,55 @@ def _inline_generator_loops_multi(func, resolve, max_depth: int = 2):
 
 
 
+def _forward_generator_locals(func, resolve):
+    """`terms = self._gen(a, b)` ... `for t in terms:` with `_gen` a generator helper and `terms` read nowhere else is
+    `for t in self._gen(a, b):` -- calling a generator function runs none of its body, only the argument expressions are evaluated at
+    the call; they must be plain names / constants / attribute chains that no statement in between re-binds.  Same block only."""
+    loads = {}
+    for n in ast.walk(func):
+        if isinstance(n, ast.Name) and isinstance(n.ctx, ast.Load):
+            loads[n.id] = loads.get(n.id, 0) + 1
+    stores = {}
+    for n in ast.walk(func):
+        if isinstance(n, ast.Name) and isinstance(n.ctx, (ast.Store, ast.Del)):
+            stores[n.id] = stores.get(n.id, 0) + 1
+
+    def block(stmts):
+        i = 0
+        while i < len(stmts):
+            st = stmts[i]
+            for fld in ("body", "orelse", "finalbody"):
+                b = getattr(st, fld, None)
+                if isinstance(b, list) and b and isinstance(b[0], ast.stmt) and not isinstance(st, (ast.FunctionDef, ast.ClassDef, ast.AsyncFunctionDef)):
+                    block(b)
+            if isinstance(st, ast.Assign) and len(st.targets) == 1 and isinstance(st.targets[0], ast.Name) and isinstance(st.value, ast.Call):
+                x, call = st.targets[0].id, st.value
+                r = resolve(call)
+                if r is not None and r[0] is not func and (_generator_callee(r[0]) or _single_yield(r[0]) is not None) \
+                        and loads.get(x, 0) == 1 and stores.get(x, 0) == 1 \
+                        and all(_pure(a) for a in call.args) and all(k.arg is not None and _pure(k.value) for k in call.keywords):
+                    argnames = set().union(set(), *[_loaded(a) for a in call.args], *[_loaded(k.value) for k in call.keywords])
+                    for j in range(i + 1, len(stmts)):
+                        nxt = stmts[j]
+                        if isinstance(nxt, ast.For) and isinstance(nxt.iter, ast.Name) and nxt.iter.id == x:
+                            nxt.iter = call
+                            del stmts[i]
+                            i -= 1
+                            break
+                        if x in _loaded(nxt) or (argnames & _stored([nxt])):
+                            break
+            i += 1
+    block(func.body)
+    return func
+
+
 def inline_generator_loops(func, resolve):
     """`for T in self._gen(args): BODY`, `_gen` a generator with ONE `yield E` reached through for / if only: the generator's
     statements with `yield E` replaced by `T = E; BODY` (parameters bound to the arguments, locals made unique) -- producer and
     consumer run interleaved in exactly this order.  resolve(call) -> (callee, receiver | None) | None.  Refused when BODY leaves
     its iteration early (break / continue) or the loop has an `else`."""
+    _forward_generator_locals(func, resolve)
+
     def expand(stmts, depth):
         out = []
         for st in stmts:
